@@ -47,6 +47,14 @@ extern "C" void stub_cnfize(Cnfizer * self, PTRef root, uint32_t frame) {
         (*self->clauseCallBack)(std::move(c));
     }
 }
+// storage of the call-back's std::vector<vec<Lit>>: libstdc++ asks for 1, then 2 elements; fixed typed buffers instead of a
+// symbolic-size operator new (deallocation is a no-op)
+union VPool { vec<Lit> v[MAXC]; VPool() {} ~VPool() {} };
+static VPool g_pool[2]; static int g_nalloc;
+extern "C" vec<Lit> * stub_vecAlloc(void *, unsigned long n, void const *) {
+    if (n > MAXC || g_nalloc >= 2) { g_bad = 1; return g_pool[0].v; }
+    return g_pool[g_nalloc++].v;
+}
 extern "C" bool stub_optAssign(SMTConfig const *) { return g_opt[1]; }
 extern "C" bool stub_optCores(SMTConfig const *) { return g_opt[2]; }
 extern "C" bool stub_optInter(SMTConfig const *) { return g_opt[3]; }
